@@ -1,6 +1,8 @@
 package mon
 
 import (
+	"encoding/base64"
+	"encoding/hex"
 	"fmt"
 	"strconv"
 	"strings"
@@ -19,7 +21,7 @@ var htmlQuick = []Mix{
 	{Gen: "mut", Dict: "htmlfull", N: 250000},
 	{Gen: "novel", Dict: "htmlfull", N: 150000},
 	{Gen: "g04", N: 150000},
-	{Gen: "scale", N: 70000}, {Gen: "seam"}, {Gen: "nulpad"}, {Gen: "wrapcount"}, {Gen: "foldalias"}, {Gen: "attrvals"},
+	{Gen: "scale", N: 70000}, {Gen: "seam"}, {Gen: "nulpad"}, {Gen: "wrapcount"}, {Gen: "foldalias"}, {Gen: "attrvals"}, {Gen: "nsattrs"},
 }
 
 var htmlThorough = []Mix{
@@ -30,7 +32,7 @@ var htmlThorough = []Mix{
 	{Gen: "mut", Dict: "htmlfull", N: 4000000},
 	{Gen: "novel", Dict: "htmlfull", N: 2000000},
 	{Gen: "g04", N: 2000000},
-	{Gen: "scale", N: 70000}, {Gen: "scale", N: 100000}, {Gen: "seam", N: 1}, {Gen: "nulpad"}, {Gen: "wrapcount"}, {Gen: "foldalias"}, {Gen: "attrvals"},
+	{Gen: "scale", N: 70000}, {Gen: "scale", N: 100000}, {Gen: "seam", N: 1}, {Gen: "nulpad"}, {Gen: "wrapcount"}, {Gen: "foldalias"}, {Gen: "attrvals"}, {Gen: "nsattrs"},
 }
 
 func htmlPlan(quick, thorough []Mix) func(string, uint64) []core.Unit {
@@ -76,17 +78,31 @@ func stripLtEq(s string, r *core.Rng) string {
 	return string(out)
 }
 
+// pctEncode: URL-encodes every byte that is not a letter or digit.
+func pctEncode(s string) string {
+	var b strings.Builder
+	for i := 0; i < len(s); i++ {
+		c := s[i]
+		if c >= 'a' && c <= 'z' || c >= 'A' && c <= 'Z' || c >= '0' && c <= '9' {
+			b.WriteByte(c)
+		} else {
+			fmt.Fprintf(&b, "%%%02X", c)
+		}
+	}
+	return b.String()
+}
+
 // C15 — no '<' and no '=' => never XSS.
 func c15() *core.Check {
 	quick := []Mix{
 		{Gen: "atoms", Dict: "htmlbytes0", K: 5},
 		{Gen: "atoms", Dict: "htmlfull0", K: 3},
-		{Gen: "f-corpus"}, {Gen: "f-seq", N: 300000}, {Gen: "f-mut", N: 300000}, {Gen: "f-g04", N: 300000}, {Gen: "f-bytetpl"}, {Gen: "f-utf8tpl"}, {Gen: "f-scale", N: 128 << 10}, {Gen: "f-padded"}, {Gen: "nulpad"}, {Gen: "wrapcount"}, {Gen: "foldalias"}, {Gen: "attrvals"}, {Gen: "huge", Dict: "quick"},
+		{Gen: "f-corpus"}, {Gen: "f-seq", N: 300000}, {Gen: "f-mut", N: 300000}, {Gen: "f-g04", N: 300000}, {Gen: "f-bytetpl"}, {Gen: "f-utf8tpl"}, {Gen: "f-scale", N: 128 << 10}, {Gen: "f-padded"}, {Gen: "nulpad"}, {Gen: "wrapcount"}, {Gen: "foldalias"}, {Gen: "attrvals"}, {Gen: "nsattrs"}, {Gen: "huge", Dict: "quick"}, {Gen: "encvec"}, {Gen: "giantx"},
 	}
 	thorough := []Mix{
 		{Gen: "atoms", Dict: "htmlbytes0", K: 6},
 		{Gen: "atoms", Dict: "htmlfull0", K: 4},
-		{Gen: "f-corpus"}, {Gen: "f-seq", N: 5000000}, {Gen: "f-mut", N: 5000000}, {Gen: "f-g04", N: 5000000}, {Gen: "f-bytetpl"}, {Gen: "f-utf8tpl"}, {Gen: "f-scale", N: 1 << 20}, {Gen: "f-scale", N: 100000}, {Gen: "f-padded", N: 1}, {Gen: "nulpad"}, {Gen: "wrapcount"}, {Gen: "foldalias"}, {Gen: "attrvals"}, {Gen: "huge", Dict: "thorough"},
+		{Gen: "f-corpus"}, {Gen: "f-seq", N: 5000000}, {Gen: "f-mut", N: 5000000}, {Gen: "f-g04", N: 5000000}, {Gen: "f-bytetpl"}, {Gen: "f-utf8tpl"}, {Gen: "f-scale", N: 1 << 20}, {Gen: "f-scale", N: 100000}, {Gen: "f-padded", N: 1}, {Gen: "nulpad"}, {Gen: "wrapcount"}, {Gen: "foldalias"}, {Gen: "attrvals"}, {Gen: "nsattrs"}, {Gen: "huge", Dict: "thorough"}, {Gen: "encvec"}, {Gen: "giantx", N: 1},
 	}
 	plan := func(tier string, seed uint64) []core.Unit {
 		mixes := quick
@@ -102,6 +118,12 @@ func c15() *core.Check {
 				us = append(us, gen.RangeUnits("f-bytetpl", 256, 16, "")...)
 			case "huge":
 				us = append(us, gen.RangeUnits("huge", uint64(len(hugeSizes(m.Dict))*3), 1, m.Dict)...)
+			case "encvec":
+				us = append(us, gen.RangeUnits("encvec", uint64(len(gen.HTMLSeeds)), 32, "")...)
+			case "giantx":
+				for i := range giantSizes(m.N == 1) {
+					us = append(us, core.Unit{Gen: "giantx", Lo: uint64(i), Hi: uint64(i + 1), Arg: strconv.FormatUint(m.N, 10)})
+				}
 			case "f-utf8tpl":
 				us = append(us, gen.RangeUnits("f-utf8tpl", uint64(len(utf8Chars())), 96, "")...)
 			case "f-scale":
@@ -124,7 +146,7 @@ func c15() *core.Check {
 	}
 	return &core.Check{
 		ID: "C15",
-		Rule: "strings over bytes minus {'<','='}: bounded-exhaustive sequences over the HTML alphabet minus atoms containing the two bytes; corpus truncations, random sequences, mutations, XSS-grammar vectors, byte / UTF-8 character templates, the length-parameterised families at 128 KiB (thorough 1 MiB) corpus inputs padded to 255-65537 bytes, NUL-padded words and benign bodies of 128 KiB-16 MiB (thorough 64 MiB), with every '<'/'=' deleted or replaced. Oracle: IsXSS = false (the firing context is reported). " +
+		Rule: "strings over bytes minus {'<','='}: bounded-exhaustive sequences over the HTML alphabet minus atoms containing the two bytes; corpus truncations, random sequences, mutations, XSS-grammar vectors, byte / UTF-8 character templates, the length-parameterised families at 128 KiB (thorough 1 MiB) corpus inputs padded to 255-65537 bytes, NUL-padded words and benign bodies of 128 KiB-16 MiB (thorough 64 MiB), with every '<'/'=' deleted or replaced; every seed vector in 20 transport encodings that hold neither byte (base64 with and without a data: prefix, hex, URL / double URL encoding, character references, \\\\u003c / \\\\x3c / octal escapes, UTF-7, high-bit US-ASCII, fullwidth); plain prose of 100 and 128 MiB (thorough up to 256 MiB). Oracle: IsXSS = false (the firing context is reported). " +
 			"Non-trivial = the tokenizer produced a non-text token in some context (attribute machinery exercised); distinct by input.",
 		Plan: plan,
 		Gen: func(w *core.Worker, u core.Unit, emit func(core.Case)) {
@@ -148,6 +170,31 @@ func c15() *core.Check {
 				genMix(htmlDomain, w, u2, f)
 			case "f-g04":
 				genC04(w, u, func(s, meta string) { f(core.Case{In: s}) })
+			case "giantx":
+				// plain prose beyond 100 MiB
+				n := giantSizes(u.Arg == "1")[u.Lo]
+				unit := []string{"lorem ipsum dolor sit amet ", "a"}[u.Lo%2]
+				emit(core.Case{In: gen.Scale("", unit, "", n), Desc: gen.ScaleDesc("", unit, "", n)})
+			case "encvec":
+				// every seed vector in the transport encodings that contain neither
+				// '<' nor '=': a decoder added in front of the scanner reports them
+				for i := u.Lo; i < u.Hi && i < uint64(len(gen.HTMLSeeds)); i++ {
+					v := gen.HTMLSeeds[i]
+					if len(v) < 4 || len(v) > 200 {
+						continue
+					}
+					b64 := base64.RawStdEncoding.EncodeToString([]byte(v))
+					b64u := base64.RawURLEncoding.EncodeToString([]byte(v))
+					hx := hex.EncodeToString([]byte(v))
+					for _, e := range []string{"data:text/html;base64," + b64, "data:;base64," + b64, "data:image/svg+xml;base64," + b64, "base64," + b64u, b64, "DATA:text/html;charset\x00utf-8;base64," + b64,
+						hx, "0x" + hx, "\\x" + strings.ToUpper(hx[:2]) + v[1:], pctEncode(v), pctEncode(pctEncode(v)), strings.ReplaceAll(pctEncode(v), "%", "%25"),
+						strings.NewReplacer("<", "&lt;", ">", "&gt;", "=", "&#61;", "\"", "&quot;").Replace(v), strings.NewReplacer("<", "\\u003c", ">", "\\u003e", "=", "\\u003d").Replace(v),
+						strings.NewReplacer("<", "\\x3c", ">", "\\x3e", "=", "\\x3d").Replace(v), strings.NewReplacer("<", "\xbc", ">", "\xbe", "=", "\xbd").Replace(v),
+						strings.NewReplacer("<", "+ADw-", ">", "+AD4-", "=", "+AD0-").Replace(v), strings.NewReplacer("<", "\uff1c", ">", "\uff1e", "=", "\uff1d").Replace(v),
+						strings.NewReplacer("<", "\\74", ">", "\\76", "=", "\\75").Replace(v), strings.NewReplacer("<", "%u003c", ">", "%u003e", "=", "%u003d").Replace(v)} {
+						emit(core.Case{In: e})
+					}
+				}
 			case "huge":
 				sz := hugeSizes(u.Arg)
 				for i := u.Lo; i < u.Hi; i++ {
@@ -281,7 +328,7 @@ func checkH5Trace(s string, toks []li.VerifH5Token, capped bool) string {
 func c17() *core.Check {
 	return &core.Check{
 		ID: "C17",
-		Rule: "(1) every HTML workload input is tokenised from all five contexts with a step cap and the trace is checked against the range/order/count inequalities; (2) for each delimited construct (<% %>, CDATA, comment, <! >, <? >, doctype, quoted values embedded and as start context) every body over {terminator bytes, NUL, filler, '<'} up to length 6 (thorough 10), behind three text prefixes, every byte value and some multi-byte characters next to the terminators, the first terminator inside 18 kinds of look-alike nesting ([..], (..), quotes, <%..%>, <!--..-->, {{..}} ...) and followed directly by a re-opener of the same construct (]]]]><![CDATA[>), is compared with a first-terminator oracle written from the property text: token offset, token length, resume offset. " +
+		Rule: "(1) every HTML workload input is tokenised from all five contexts with a step cap and the trace is checked against the range/order/count inequalities; (2) for each delimited construct (<% %>, CDATA, comment, <! >, <? >, doctype, quoted values embedded and as start context) every body over {terminator bytes, NUL, filler, '<'} up to length 6 (thorough 10), behind three text prefixes, every byte value and some multi-byte characters next to the terminators, the first terminator inside 18 kinds of look-alike nesting ([..], (..), quotes, <%..%>, <!--..-->, {{..}} ...) and followed directly by a re-opener of the same construct (]]]]><![CDATA[>), is compared with a first-terminator oracle written from the property text: token offset, token length, resume offset; IE-conditional comment bodies and SGML declarations with -- comments as extra bodies; thorough tier: one comment of 2 GiB + 64 bytes. " +
 			"Non-trivial = construct cases whose body holds at least one terminator byte, plus generic traces with >= 2 tokens; distinct by input.",
 		Plan: func(tier string, seed uint64) []core.Unit {
 			us := htmlPlan(htmlQuick, htmlThorough)(tier, seed)
@@ -289,9 +336,25 @@ func c17() *core.Check {
 			if tier == "thorough" {
 				lvl = 3
 			}
+			if tier == "thorough" {
+				// one comment whose terminator lies beyond 2^31 bytes (32-bit offsets)
+				us = append(us, core.Unit{Gen: "twogib", Lo: 0, Hi: 1})
+			}
 			return append(us, planDecoy(lvl)...)
 		},
 		Gen: func(w *core.Worker, u core.Unit, emit func(core.Case)) {
+			if u.Gen == "twogib" {
+				ci := 0
+				for i, c := range constructs {
+					if c.name == "comment" {
+						ci = i
+					}
+				}
+				n := 1<<31 + 64
+				unit := strings.Repeat("a", 64)
+				emit(core.Case{In: gen.Scale("<!--", unit, "--><p>", n), Desc: gen.ScaleDesc("<!--", unit, "--><p>", n), Kind: "construct", A: int64(ci), B: 0})
+				return
+			}
 			if u.Gen == "decoy" {
 				genDecoy(w, u, func(s string, ci int, meta string) {
 					pl, _ := strconv.Atoi(meta)
@@ -303,7 +366,7 @@ func c17() *core.Check {
 		},
 		One: func(w *core.Worker, c core.Case) {
 			s := c.In
-			if len(s) > 1<<19 && c.Kind != "seam" {
+			if len(s) > 1<<19 && c.Kind != "seam" && c.Kind != "construct" {
 				return
 			}
 			w.Eval(1)
@@ -413,10 +476,12 @@ func c13() *core.Check {
 		ctx    int
 		prefix string
 	}{{li.VerifH5CtxNoQuote, "<a "}, {li.VerifH5CtxSingleQuote, "<a b='"}, {li.VerifH5CtxDoubleQuote, "<a b=\""}, {li.VerifH5CtxBackQuote, "<a b=`"}}
-	texts := []string{"x", "text ", "'", "\"", "`", ">", "=", "a=b ", "&#60;", "\x00", "/>", "-->", "]]>", "%>", "x' y\" z` > = ", strings.Repeat("lorem ipsum ", 400)}
+	texts := []string{"x", "text ", "'", "\"", "`", ">", "=", "a=b ", "&#60;", "\x00", "/>", "-->", "]]>", "%>", "x' y\" z` > = ", strings.Repeat("lorem ipsum ", 400),
+		// characters and spellings that some decoder or font maps to '<'
+		"\uff1c", "\u2039", "\u3008", "\ufe64", "\xbc", "\u00ab", "&lt;", "%3C", "\\u003c", "\\x3c", "+ADw-", "\uff1c/", "\uff1c!", "\xc0\xbc", "\xe0\x80\xbc"}
 	return &core.Check{
 		ID: "C13",
-		Rule: "for every HTML workload input s (and for inputs of 128 KiB-16 MiB, thorough 64 MiB, whose only vector is at the very end or beginning): IsXSS(s) vs OR over the five per-context verdicts; verdict(s,ctx) vs verdict(embed_ctx(s), data) for the four attribute contexts; verdict(t+s, data) vs verdict(s, data) for 16 texts t without '<' (quotes, '>', '=', entities, NUL, comment enders, 4.8 KB of prose). " +
+		Rule: "for every HTML workload input s (and for inputs of 128 KiB-16 MiB, thorough 64 MiB, whose only vector is at the very end or beginning): IsXSS(s) vs OR over the five per-context verdicts; verdict(s,ctx) vs verdict(embed_ctx(s), data) for the four attribute contexts; verdict(t+s, data) vs verdict(s, data) for 31 texts t without '<' (quotes, '>', '=', entities, NUL, comment enders, 4.8 KB of prose, 15 look-alikes and encoded spellings of '<'). " +
 			"Non-trivial = inputs on which at least one context fires or the contexts disagree with each other; distinct by input.",
 		Plan: func(tier string, seed uint64) []core.Unit {
 			us := htmlPlan(htmlQuick, htmlThorough)(tier, seed)
